@@ -19,8 +19,8 @@
      accepts -len <= index < 0 (counting from the end) and raises IndexError
      outside.
    * Node.index (the node's id, copied into Slot.node_index) is kept apart
-     from the node's position in NodeList.nodes: NodeList looks nodes up with
-     `self.nodes[slot.node_index]`.
+     from the node's position in NodeList.nodes: NodeList looks the node of a
+     slot up by id (`_get_node`).
    * ranks_per_node of NodeList._assert_rr is a float quotient in the code and
      an exact fraction here (the harness generates sizes for which both agree).
    * `while True` in find_slots has no bound in the code; the model gives each
@@ -204,15 +204,10 @@ Definition deallocate_slot (nd : node) (s : slot) : node * option err :=
     match e2 with
     | Some e => (nd2, Some e)
     | None =>
-      match nd_lfs nd with
-      | None => (nd2, Some EType)                                     (* None += int *)
-      | Some l =>
-        let nd3 := mkNode (nd_index nd) (nd_name nd) cs gs (Some (l + s_lfs s)) (nd_mem nd) in
-        match nd_mem nd with
-        | None => (nd3, Some EType)
-        | Some m => (mkNode (nd_index nd) (nd_name nd) cs gs (Some (l + s_lfs s)) (Some (m + s_mem s)), None)
-        end
-      end
+      (* `if self.lfs is not None: self.lfs += slot.lfs` (nodes may not report lfs / mem) *)
+      (mkNode (nd_index nd) (nd_name nd) cs gs
+              (match nd_lfs nd with Some l => Some (l + s_lfs s) | None => None end)
+              (match nd_mem nd with Some m => Some (m + s_mem s) | None => None end), None)
     end
   end.
 
@@ -336,13 +331,27 @@ Fixpoint nodes_loop (cnt : nat) (i : Z) (start : Z) (ns : list node) (r : rreq) 
       end
   end.
 
-(* `for slot in slots: node = self.nodes[slot.node_index]; node.deallocate_slot(slot)` *)
+(* NodeList._get_node(slot): the node whose id (Node.index) is slot.node_index -- the node at that
+   list position if it carries that id, else the first node with that id, else ValueError *)
+Fixpoint find_idx (ns : list node) (idx : Z) (p : nat) : option nat :=
+  match ns with
+  | [] => None
+  | nd :: t => if nd_index nd =? idx then Some p else find_idx t idx (S p)
+  end.
+
+Definition get_node (ns : list node) (idx : Z) : option nat :=
+  match (if (0 <=? idx) && (idx <? zlen ns) then nth_error ns (Z.to_nat idx) else None) with
+  | Some nd => if nd_index nd =? idx then Some (Z.to_nat idx) else find_idx ns idx O
+  | None => find_idx ns idx O
+  end.
+
+(* `for slot in slots: node = self._get_node(slot); node.deallocate_slot(slot)` *)
 Fixpoint dealloc_all (ns : list node) (sl : list slot) : list node * option err :=
   match sl with
   | [] => (ns, None)
   | s :: sl' =>
-      match py_pos ns (s_nidx s) with
-      | None => (ns, Some EIndex)
+      match get_node ns (s_nidx s) with
+      | None => (ns, Some EValue)
       | Some k =>
           match nth_error ns k with
           | None => (ns, Some EIndex)
